@@ -799,7 +799,7 @@ Inductive dval :=
 | DStr (s : bytes)
 | DList (vs : list dval)
 | DRefTo (v : dval)            (* 'r' to a list: ReadReference hands out the registered *[]interface{} itself *)
-| DPanic.                      (* the call panicked (index out of range in decoderRefer.Read) *)
+| DPanic.                      (* the call panicked (no longer produced: a bad reference index is a decode error since e3aee3e) *)
 
 (* the decoder's reference list; a list is registered when it starts and is filled when it ends *)
 Definition drefs := list (option dval).
@@ -876,12 +876,17 @@ Fixpoint set_nth {A} (n : nat) (x : A) (l : list A) : list A :=
   | S k, y :: r => y :: set_nth k x r
   end.
 
+(* sliceDecoder.Decode:  for ; i < count && dec.Error == nil; i++ { decodeElem }  ; len = i :
+   the loop stops at the first decode error and keeps what was decoded so far (the element that
+   failed included) *)
 Fixpoint cdec_elems (rec : dst -> dval * dst) (n : nat) (st : dst) : list dval * dst :=
   match n with
   | O => ([], st)
-  | S k => let '(v, st1) := rec st in
-           if ds_panic st1 then ([v], st1)
-           else let '(vs, st2) := cdec_elems rec k st1 in (v :: vs, st2)
+  | S k => match ds_e st with
+           | Some _ => ([], st)
+           | None => let '(v, st1) := rec st in
+                     let '(vs, st2) := cdec_elems rec k st1 in (v :: vs, st2)
+           end
   end.
 
 (* dec.decodeInterface(dec.NextByte(), &v) for the tags of this codec; ASCII strings only *)
@@ -918,26 +923,24 @@ Fixpoint cdec (fuel : nat) (st : dst) : dval * dst :=
           let st3 := skip (mk_dst (ds_r st2) (ds_e st2) (skipn k (ds_i st2)) (ds_panic st2)) in
           (DStr s, add_ref st3 (Some (DStr s)))
         else if Byte.eqb b "a"%byte then
-          let '(n, st2) := read_int st1 in
+          (* count := dec.ReadCount(): a negative count is a decode error and counts as 0 *)
+          let '(n0, st2a) := read_int st1 in
+          let st2 := if n0 <? 0 then set_err st2a EOther else st2a in
+          let n := if n0 <? 0 then 0 else n0 in
           let idx := length (ds_r st2) in
           let st3 := add_ref st2 None in
           let '(vs, st4) := cdec_elems (cdec f) (Z.to_nat n) st3 in
-          if ds_panic st4 then
-            (* the slice was grown to n nil elements before the first element was read and stays registered *)
-            let done := removelast vs in
-            let part := DList (done ++ repeat DNil (Z.to_nat n - length done)) in
-            (DPanic, if simple then st4 else mk_dst (set_nth idx (Some part) (ds_r st4)) (ds_e st4) (ds_i st4) true)
-          else
-            let st5 := skip st4 in
-            let v := DList vs in
-            (v, if simple then st5 else mk_dst (set_nth idx (Some v) (ds_r st5)) (ds_e st5) (ds_i st5) (ds_panic st5))
+          let st5 := skip st4 in
+          let v := DList vs in
+          (v, if simple then st5 else mk_dst (set_nth idx (Some v) (ds_r st5)) (ds_e st5) (ds_i st5) (ds_panic st5))
         else if Byte.eqb b "r"%byte then
-          (* ReadReference: dec.refer.Read(dec.ReadInt()) -- no IsSimple() check *)
+          (* ReadReference: i := dec.ReadInt(); an index outside dec.refer.ref (always, in simple mode) is a
+             decode error and the destination keeps its value -- no IsSimple() check, no panic *)
           let '(n, st2) := read_int st1 in
           match (if n <? 0 then None else nth_error (ds_r st2) (Z.to_nat n)) with
           | Some (Some v) => (match v with DList _ => DRefTo v | _ => v end, st2)
           | Some None => (DNil, st2)               (* a list that is still being read: not generated *)
-          | None => (DPanic, mk_dst (ds_r st2) (ds_e st2) (ds_i st2) true)
+          | None => (DNil, set_err st2 EOther)
           end
         else (DNil, set_err st1 EInvalidTag)
       end
